@@ -125,6 +125,14 @@ func FromGNMITypedValue(v *gnmi.TypedValue) *sdcpb.TypedValue {
 			Value: &sdcpb.TypedValue_UintVal{UintVal: v.GetUintVal()},
 		}
 	case *gnmi.TypedValue_DecimalVal:
+		//lint:ignore SA1019 the deprecated decimal form is what some devices still send
+		return &sdcpb.TypedValue{
+			Value: &sdcpb.TypedValue_DecimalVal{DecimalVal: &sdcpb.Decimal64{
+				Digits:    v.GetDecimalVal().GetDigits(),
+				Precision: v.GetDecimalVal().GetPrecision(),
+			}},
+		}
+	case *gnmi.TypedValue_DoubleVal:
 		return &sdcpb.TypedValue{
 			Value: &sdcpb.TypedValue_DoubleVal{DoubleVal: v.GetDoubleVal()},
 		}
